@@ -470,13 +470,29 @@ def info (t : Node) : Except Err (List (RelPath × Nat)) := do
   if h.gens.isEmpty then throw errNoHistory
   pure (infoLines h)
 
-/-- `info -sf FILE` with the history at the root: one line per digest recorded for the path in the ROOT history's
-generations: (generation, format, digest, action) -/
+mutual
+/-- `find_history_for_path`: the deepest loaded history whose root folder lies on the path (the history itself when no
+nested one does).  Roots are relative to the folder the command loaded. -/
+def ownerHist : Hist → RelPath → Hist
+  | .mk r gens ch e cs, p =>
+    match ownerHistList cs p with
+    | some o => o
+    | none => .mk r gens ch e cs
+def ownerHistList : List Hist → RelPath → Option Hist
+  | [], _ => none
+  | c :: cs, p => if c.root.isPrefixOf p then some (ownerHist c p) else ownerHistList cs p
+end
+
+/-- `info -sf FILE` with the history at the root: one line per digest recorded for the path in the generations of the
+NEAREST ENCLOSING history of the file (the loaded root history or a nested one), looked up under the path relative to
+that history's root: (generation, format, digest, action) -/
 def infoSingleFile (t : Node) (file : RelPath) : Except Err (List (Nat × String × String × String)) := do
   let h ← loadHistory t
   if h.gens.isEmpty then throw errNoHistory
-  pure (h.gens.flatMap fun g =>
-    match g.gen.find (posix file) with
+  let o := ownerHist h file
+  let rel := file.drop o.root.length
+  pure (o.gens.flatMap fun g =>
+    match g.gen.find (posix rel) with
     | none => []
     | some r => r.entries.map fun e => (g.number, e.fmt, e.digest, e.action))
 
